@@ -3,6 +3,18 @@
 EXTENDS Mocker, TraceBase
 E2T == {"e1", "e2"}
 M2T == {"m1", "m2"}
+\* re-entrant callbacks (scenario variant `nest`): while it answers, every callback patch uses the mocker itself - a replace()
+\* at an index nothing is at ("error": it fails and changes nothing, FailedOpsAtomic) and, over the synchronous transport, a
+\* call to a method of its own endpoint that has no patch ("mnf": -32601, nothing recorded, no rotation; when the answering
+\* patch was the endpoint's last one and is used up already the endpoint may count as unpatched at that moment: passed on /
+\* refused as configured - the statement does not say when a once-patch leaves).  Both come back, in this order, once per
+\* callback that answered; the state of the model is the one of the history without them.
+NCallbacks(rs) == Cardinality({j \in DOMAIN rs : rs[j].body = "callback"})
+PerCallback == IF Scn.kind = "sync" THEN 2 ELSE 1
+NestOk(ns, rs) == /\ Len(ns) = (IF Scn.nest THEN NCallbacks(rs) * PerCallback ELSE 0)
+                  /\ \A j \in DOMAIN ns :
+                        IF Scn.kind = "sync" /\ j % 2 = 0 THEN ns[j] \in {"mnf", IF passthrough THEN "passed" ELSE "refused"}
+                        ELSE ns[j] = "error"
 TraceInit == tid \in 1..NTraces /\ l = 1 /\ InitWith(Traces[tid].scn.passthrough)
 \* one event per operation, logged after it returned / raised: its observable result, the reply documents of a call
 \* (id, kind of body, which patch produced it) and everything mocker.calls has recorded so far
@@ -11,6 +23,7 @@ TOp == /\ IsEvent("Op")
        /\ last'.k = E.k
        /\ last'.replies = E.replies
        /\ calls' = E.calls
+       /\ NestOk(E.nest, last'.replies)
 TraceNext == TOp
 TraceConstraint == TypeOK /\ CallInvariant /\ UnpatchedEndpoint /\ Progress
 =============================================================================
